@@ -15,7 +15,7 @@
 (* (SlimAPI): ks, vals, hasvals, o, R (retained indexes), rp (position of  *)
 (* key i in R or 0), nodes (Model table), valset.                          *)
 (***************************************************************************)
-EXTENDS SlimWire
+EXTENDS SlimWireOld
 
 Report(l, code, bad) ==
   IF bad = {} THEN TRUE
